@@ -445,6 +445,105 @@ class ClimAdd(Case):
                 yield {"t0": t0, "t1": t1, "v0": v0, "v1": v1, "f0": 2, "f1": -2, "z0": 10, "z1": 0}
 
 
+class ClimConvert(Case):
+    """ClimatologyConfig.convert on a list of member dicts: one stored member per dict, in the order of the list,
+    each with its own sorted spans and period; an object that already is a ClimatologyConfig comes back as it is.
+    The list has a concrete length (0, 2 or 3 dicts: the loop of convert runs natively, exhaustive for that length,
+    bounded in the length), the contents are symbolic.  params: shapes = tuple of (period, hasz, hasf) per dict"""
+
+    module = "ioos_qc.qartod"
+    function = "ClimatologyConfig.convert"
+    props = {"post.members_follow_the_list_in_order": ("C08",), "post.config_object_passes_through": ("C08",), "no-raise": ("C08",)}
+
+    def declare(self, mk):
+        e = Env()
+        e.mode = mk.mode
+        for k, (p, hasz, hasf) in enumerate(self.params["shapes"]):
+            if p is None:
+                setattr(e, "t0_%d" % k, mk.dt("t0_%d" % k))
+                setattr(e, "t1_%d" % k, mk.dt("t1_%d" % k))
+            else:
+                setattr(e, "t0_%d" % k, mk.real("t0_%d" % k))
+                setattr(e, "t1_%d" % k, mk.real("t1_%d" % k))
+            for nm, on in (("v", True), ("f", hasf), ("z", hasz)):
+                if on:
+                    setattr(e, "%s0_%d" % (nm, k), mk.real("%s0_%d" % (nm, k)))
+                    setattr(e, "%s1_%d" % (nm, k), mk.real("%s1_%d" % (nm, k)))
+        return e
+
+    def _dicts(self, e):
+        out = []
+        for k, (p, hasz, hasf) in enumerate(self.params["shapes"]):
+            g = lambda nm, k=k: getattr(e, "%s_%d" % (nm, k))  # noqa: E731
+            kw = {"tspan": (g("t0"), g("t1")), "vspan": [g("v0"), g("v1")], "period": p}
+            if hasf:
+                kw["fspan"] = (g("f0"), g("f1"))
+            if hasz:
+                kw["zspan"] = [g("z0"), g("z1")]
+            out.append(kw)
+        return out
+
+    def call(self, mod, e):
+        cfg = mod.ClimatologyConfig.convert(self._dicts(e))
+        again = mod.ClimatologyConfig.convert(cfg)
+        return (cfg, again)
+
+    def raises(self, e):
+        return []
+
+    def canary(self, e, res, k):
+        return None
+
+    def post_global(self, e, res):
+        cfg, again = res.value
+        ms = cfg.members
+        shapes = self.params["shapes"]
+        if len(ms) != len(shapes):
+            return {"members_follow_the_list_in_order": False, "config_object_passes_through": again is cfg}
+
+        def same(sp, a, b, conv):
+            return alg.and_(alg.eq(conv(sp.minv), alg.min_(conv(a), conv(b))), alg.eq(conv(sp.maxv), alg.max_(conv(a), conv(b))))
+
+        fs = []
+        for k, (p, hasz, hasf) in enumerate(shapes):
+            m = ms[k]
+            g = lambda nm, k=k: getattr(e, "%s_%d" % (nm, k))  # noqa: E731
+            if m.period != p:
+                fs.append(False)
+                continue
+            tconv = _tconv if p is None else _num
+            if (m.fspan is None) == hasf or (m.zspan is None) == hasz:
+                fs.append(False)
+                continue
+            fs.append(same(m.tspan, g("t0"), g("t1"), tconv))
+            fs.append(same(m.vspan, g("v0"), g("v1"), _num))
+            if hasf:
+                fs.append(same(m.fspan, g("f0"), g("f1"), _num))
+            if hasz:
+                fs.append(same(m.zspan, g("z0"), g("z1"), _num))
+        return {"members_follow_the_list_in_order": alg.and_(*fs) if fs else True, "config_object_passes_through": again is cfg}
+
+    def grid(self, tier, rng):
+        n = len(self.params["shapes"])
+        for rot in range(3):
+            d = {}
+            for k in range(n):
+                a, b = ((1, 5), (5, 1), (3, 3))[(k + rot) % 3]
+                d.update({"t0_%d" % k: a, "t1_%d" % k: b, "v0_%d" % k: k, "v1_%d" % k: -k - rot, "f0_%d" % k: 2 + k, "f1_%d" % k: -2, "z0_%d" % k: 10 * (k + 1), "z1_%d" % k: 0})
+            yield d
+
+
+def _tconv(x):
+    """instant of an absolute span bound as integer nanoseconds (model datetime, SNum or a real pandas Timestamp)"""
+    if isinstance(x, SNum):
+        return x.val
+    if hasattr(x, "ns"):
+        return x.ns
+    import pandas as pd
+
+    return int(pd.Timestamp(x).value)
+
+
 class ClimAddSpellings(Case):
     """bounded: absolute time spans given in the spellings pandas.Timestamp accepts (ISO strings with and
     without zero padding, month names, US style, date / datetime / datetime64 / Timestamp objects, mixed), in
@@ -587,5 +686,10 @@ def add_cases():
     cs.append(ClimAdd(period="month", hasz=True, hasf=True, via="convert"))
     cs.append(ClimAdd(period=None, hasz=False, hasf=False, via="convert"))
     cs.append(ClimAdd(period="bogus", hasz=False, hasf=False, via="add"))
+    cs.append(ClimConvert(shapes=()))
+    cs.append(ClimConvert(shapes=(("month", True, True), (None, False, False))))
+    cs.append(ClimConvert(shapes=((None, False, True), ("week", True, False))))
+    cs.append(ClimConvert(shapes=(("month", False, False), ("month", True, False), ("dayofyear", False, True))))
+    cs.append(ClimConvert(shapes=((None, False, False), (None, False, False), (None, True, False))))
     cs.append(ClimAddSpellings())
     return cs
